@@ -699,6 +699,9 @@ func (w *walker) doReturn(st *state, rs *ast.ReturnStmt) {
 			default:
 				return Value{}
 			}
+			if w.isNonNilExpr(e, st.fr()) {
+				return Value{Kind: VNonNil} // errors.New(…), a stdlib sentinel such as context.Canceled, &T{}
+			}
 			ki := keyInfo{pure: true}
 			key := w.exprKey(e, st.fr(), st, &ki)
 			if !ki.pure || ki.shared {
